@@ -134,6 +134,7 @@ func histWorker(req N) (resp N) {
 		"error":     "n := bump()\npoke()\nfunc f(k) { if k == 0 { return [][1] }\n return f(k - 1) }\nf(3)",
 		"panic":     "n := bump()\npoke()\nz := 0\n1 / z",
 		"overflow":  "n := bump()\npoke()\nfunc g(k) { return g(k + 1) }\ng(0)",
+		"opoverflow": "n := bump()\npoke()\nfunc og(k) { return 1 + og(k + 1) }\nog(0)",
 		"deeppanic": "n := bump()\npoke()\nfunc dp(k) { if k == 0 { return boom() }\n return dp(k - 1) }\ndp(600)",
 		"cancelled": "n := bump()\npoke()\nfor { spin() }",
 	}
@@ -142,6 +143,7 @@ func histWorker(req N) (resp N) {
 		"func do_error() { n := bump(); poke(); func f(k) { if k == 0 { return [][1] }; return f(k - 1) }; return f(3) }\n" +
 		"func do_panic() { n := bump(); poke(); z := 0; return 1 / z }\n" +
 		"func do_overflow() { n := bump(); poke(); func g(k) { return g(k + 1) }; return g(0) }\n" +
+		"func do_opoverflow() { n := bump(); poke(); func og(k) { return 1 + og(k + 1) }; return og(0) }\n" +
 		"func do_deeppanic() { n := bump(); poke(); func dp(k) { if k == 0 { return boom() }; return dp(k - 1) }; return dp(600) }\n" +
 		"func do_cancelled() { n := bump(); poke(); for { spin() } }\n"
 	libCode, err := compileSnippet(lib, gnames)
@@ -157,7 +159,7 @@ func histWorker(req N) (resp N) {
 		return N{"k": "nolib", "msg": err.Error()}
 	}
 	fns := map[string]*object.Function{}
-	for _, k := range []string{"normal", "error", "panic", "deeppanic", "overflow", "cancelled"} {
+	for _, k := range []string{"normal", "error", "panic", "deeppanic", "overflow", "opoverflow", "cancelled"} {
 		o, err := machine.Get("do_" + k)
 		if err != nil {
 			return N{"k": "nolib", "msg": err.Error()}
@@ -193,7 +195,7 @@ func histWorker(req N) (resp N) {
 					val = tos
 				}
 			}
-			for _, k := range []string{"normal", "error", "panic", "deeppanic", "overflow", "cancelled"} {
+			for _, k := range []string{"normal", "error", "panic", "deeppanic", "overflow", "opoverflow", "cancelled"} {
 				if o, gerr := machine.Get("do_" + k); gerr == nil {
 					if fn, ok := o.(*object.Function); ok {
 						fns[k] = fn
